@@ -40,9 +40,9 @@ Proof.
       injection EB as <-. destruct (memN b (o_ntf o)); [rewrite Qnotify|]; eauto.
 Qed.
 
-Theorem agents_inv fut s : reach c fut s -> AllQ s.
+Theorem agents_minv fut s : mreach c fut s -> AllQ s.
 Proof.
-  apply reach_inv.
+  apply mreach_inv.
   - intros s0 a A cl pc I EA Hpc Hal He _ b B EB.
     unfold begin_call in EB. cbn [ags] in EB. rewrite get_put in EB.
     destruct (N.eqb b a) eqn:E.
@@ -56,4 +56,7 @@ Proof.
   - intros s0 I. exact I.
   - intros a A. apply Qinit.
 Qed.
+
+Theorem agents_inv fut s : reach c fut s -> AllQ s.
+Proof. intros R. apply (agents_minv fut). now apply reach_mreach. Qed.
 End AgentInv.
